@@ -171,12 +171,20 @@ def run_child(cmd, timeout, env=None, cwd=None, stdin=None):
     e.update(SAN_ENV)
     if env:
         e.update(env)
-    try:
-        p = subprocess.Popen(cmd, stdout=subprocess.PIPE, stderr=subprocess.PIPE, env=e, cwd=cwd,
-                             stdin=subprocess.PIPE if stdin is not None else subprocess.DEVNULL,
-                             start_new_session=True)
-    except OSError as ex:
-        raise HarnessFailure("cannot start %r: %s" % (cmd, ex))
+    p = None
+    for attempt in range(40):
+        try:
+            p = subprocess.Popen(cmd, stdout=subprocess.PIPE, stderr=subprocess.PIPE, env=e, cwd=cwd,
+                                 stdin=subprocess.PIPE if stdin is not None else subprocess.DEVNULL,
+                                 start_new_session=True)
+            break
+        except OSError as ex:
+            # another check process may be relinking this very binary (flavor builds are shared): ETXTBSY / ENOENT for a moment
+            import errno as _errno
+            if ex.errno in (_errno.ETXTBSY, _errno.ENOENT, _errno.EACCES) and attempt < 39:
+                time.sleep(3)
+                continue
+            raise HarnessFailure("cannot start %r: %s" % (cmd, ex))
     try:
         out, err = p.communicate(stdin, timeout=timeout)
         return p.returncode, out, err, False
